@@ -90,15 +90,15 @@ def oracle_shell_nostart(c):
     there is no process state, nothing captured), never the previous execution's, and the callback runs once."""
     why = []
     v, ex, st = c["variant"], c["exit"], c["status"]
-    what = "the shell was never started in this execution (%s; previous execution on this object: %s)" % (v[len("nostart-"):], c.get("prev"))
+    what = "the shell was never started (%s; previous execution on this object: %s)" % (v[len("nostart-"):], c.get("prev"))
     if c["err_nil"]:
         why.append("Execute returned nil although " + what)
     elif c["err_class"] != NOSTART_ERR[v]:
         why.append("Execute returned an error of class %r, expected the launch error (%s)" % (c["err_class"], NOSTART_ERR[v]))
     if st != FAILURE:
-        why.append("status %s after an execution in which %s" % ({NA: "NA", OK: "OK"}.get(st, st), what))
+        why.append("status %s is shown after an execution in which %s" % ({NA: "NA", OK: "OK"}.get(st, st), what))
     if ex != -1:
-        why.append("exit code %d is shown although %s (no process state: -1)" % (ex, what))
+        why.append("exit code %d is shown (no process state: -1 expected) although %s" % (ex, what))
     if not c["out_ok"] or not c["errout_ok"]:
         why.append("stdout/stderr show %d/%d bytes although nothing ran in this execution (output of the previous execution?)" % (
             c["out_len"], c["errout_len"]))
@@ -291,6 +291,20 @@ SUBCMDS = {
 }
 
 
+HOW = {
+    "http-stream": "jobsh http stream: ONE CurlJob over a real connection to a local server; first execution: the server sends the headers and one "
+                   "event of a 200 response and keeps the body open (stalled: sends nothing more; trickle: one byte every 25 ms); second execution "
+                   "under a different context (first_ctx says how the first one's context relates: background / own context still alive / sibling "
+                   "child of one parent / cancelled right after the first execution): `plain` = the server answers 201 at once, Execute must return; "
+                   "`hang-cancel` = the server holds the request, the context is cancelled once the request is in flight (or after 3 s), Execute "
+                   "must return; verdict after the patience only, then the server ends the old stream so that the harness can clean up",
+    "shell-nostart": "jobsh shell nostart: ONE ShellJob (command prints o<exit>.<step> / e<exit>.<step> and exits with the number in a file); "
+                     "executions in which exec cannot start the shell (context already cancelled / deadline passed before Execute, PATH without "
+                     "bash/sh, PATH with a bash/sh that is not executable) as first execution of a new job and between executions that run; "
+                     "status, exit code, stdout, stderr, callback count read after each execution",
+}
+
+
 def run_cmd(binp, args, timeout=600):
     rc, out = vlib.run([binp] + args, timeout=timeout)
     recs = []
@@ -427,7 +441,8 @@ def run(ctx):
     failures, mismatches = [], []
     recs = []
     for name, args in SUBCMDS.items():
-        recs += collect(binp, name, args, failures, "jobsh %s: one execution at a time on the real job, observed through the public getters" % " ".join(args))
+        recs += collect(binp, name, args, failures, HOW.get(name) or
+                        "jobsh %s: one execution at a time on the real job, observed through the public getters" % " ".join(args))
     conc_recs = []
     cb = racep or binp
     for kind, rounds in (("func", 2500), ("curl", 1500), ("shell", 40)) if quick else (("func", 40000), ("curl", 20000), ("shell", 600)):
